@@ -30,7 +30,7 @@ theorem wfSecs_cons {u : Nat} {s : CSec} {ss : List CSec} (hw : wfSecs h u (s ::
   simpa [wfSecs] using hw
 
 theorem wfFiles_cons {off len : Nat} {f : CFile} {fs : List CFile} (hw : wfFiles h off len (f :: fs) = true) :
-    wfFile h f = true ∧ alignUp off 8 + 24 < len ∧ alignUp off 8 + sizeFile (flatFile f) ≤ len ∧
+    wfFile h f = true ∧ alignUp off 8 + 24 ≤ len ∧ alignUp off 8 + sizeFile (flatFile f) ≤ len ∧
     (alignUp off 8 + hdrLenOfAttrs (storedAttrs (flatFile f))) % alignmentOf (storedAttrs (flatFile f)) = 0 ∧
     wfFiles h (alignUp off 8 + sizeFile (flatFile f)) len fs = true := by
   simp only [wfFiles, Bool.and_eq_true, decide_eq_true_eq, beq_iff_eq] at hw
@@ -63,8 +63,8 @@ theorem wfFv_ffs {zv : Bytes} {v3 : Bool} {attrs rev rsv : Nat} {blocks : List B
     wfFiles h (preLen blocks ext) (endFiles (preLen blocks ext) (flatFiles files) + free) files = true := by
   simp only [wfFv, Bool.and_eq_true, decide_eq_true_eq, beq_iff_eq, bne_iff_ne, Bool.or_eq_true,
     List.isEmpty_iff, Bool.not_eq_true', List.isEmpty_eq_false_iff] at hw
-  obtain ⟨⟨⟨⟨⟨⟨⟨⟨⟨⟨⟨⟨⟨h1, h2⟩, h3⟩, h4⟩, h5⟩, h6⟩, h7⟩, h8⟩, h9⟩, h10⟩, h11⟩, h12⟩, h13⟩, h14⟩ := hw
-  refine ⟨⟨h1, h2, h3, h4, h5, h6, h7, ?_, ?_, h10, h11, h12, h14⟩, h13⟩
+  obtain ⟨⟨⟨⟨⟨⟨⟨⟨⟨⟨⟨⟨h1, h2⟩, h3⟩, h4⟩, h5⟩, h6⟩, h7⟩, h8⟩, h9⟩, h10⟩, h11⟩, h12⟩, h13⟩ := hw
+  refine ⟨⟨h1, h2, h3, h4, h5, h6, h7, ?_, ?_, h10, h11, h12⟩, h13⟩
   · rcases h8 with h8 | h8
     · left; exact (flatFiles_nil_iff files).mpr h8
     · right; exact h8
